@@ -61,8 +61,9 @@ func (exec *execCtx) assemble() {
 			}
 		} else {
 			ok := exec.writeCollectedHeader()
-			if ok && exec.overtakePayloadInReverse(children[len(children)-1]) {
+			if ok && exec.overtakePayloadInReverse(children[len(children)-1]) && exec.lastChildRange.GetLength() > 0 {
 				// payload of all children except the last are written, write last payload
+				// (if any of it is requested: zero range means full payload for the storage)
 				exec.copyChild(exec.lastChildID, &exec.lastChildRange, false)
 			}
 		}
@@ -74,7 +75,10 @@ func (exec *execCtx) assemble() {
 					rng = &exec.lastChildRange
 				}
 				// payload of all children except the last are written, write last payload
-				exec.copyChild(exec.lastChildID, rng, false)
+				// (if any of it is requested: zero range means full payload for the storage)
+				if rng == nil || rng.GetLength() > 0 {
+					exec.copyChild(exec.lastChildID, rng, false)
+				}
 			}
 		}
 	} else {
